@@ -174,6 +174,9 @@ structure Env where
   time : TimeCfg
   /-- `read_entity` skips unknown tagged fields by their size (true, repaired) or raises `KeyError` (false, as shipped) -/
   skipUnknownTags : Bool
+  /-- a nullable *tagged* primitive field is read with the nullable reader (true, repaired: an
+      explicit null payload is accepted) or with the non-nullable one (false, as shipped) -/
+  nullableTaggedReader : Bool
 deriving Repr
 
 def PrimR.run (env : Env) : PrimR → Dec Value
